@@ -15,6 +15,24 @@ ASSUME = [
     "also counted here: memory errors / UB found by the irx runs of C05, C06, C09, C11 harnesses are reported by those checks",
 ]
 UNITS = ["Co60", "Bi207", "Ru100low", "Se76low", "Sm150low"]
+BB_UNITS = ["bb", "fe1_mods", "fe2_mods", "fe12_mods", "dshelp1", "dshelp2", "dgmlt1", "dgmlt2", "tgold", "utils", "event", "particle", "particle_utils", "bb_utils"]
+BB_ASSUME = ("decay0_bb (real bb.cc, fe*_mods.cc, dshelp*.cc, dgmlt*.cc, tgold.cc, particle.cc): all 20 legacy modes x 3 concrete deviate scripts, Q = 1.2 MeV (1200-bin tables), after a real initialisation; "
+             "the state a shot leaves in the parameter block (table spthe2 in the modes that write it, helpbb::e1) is made indeterminate - universally quantified history - and irx reports the first use of "
+             "such a value in a branch, an index, an external call or the compared events; Fermi function and GSL quadrature are deterministic stand-ins (GSL is a binary library); deviates are concrete here "
+             "(symbolic deviates make every one of the ~1200 table comparisons a fork)")
+
+
+def build_and_run_bb(cid, tier):
+    """decay0_bb modules (harness/e3/c07_bb.cpp): history independence (C07) and memory/UB (C08) of the primary routine"""
+    wd = vlib.workdir(cid + "bb")
+    lls = vlib.ir_units(wd, BB_UNITS)
+    hs = vlib.E3H + "/c07_bb.cpp"
+    scripts = (0,) if tier == "quick" else (0, 1, 2)
+    jobs = [("bb_mode%d_s%d" % (m, s), ["MODE=%d" % m, "SCRIPT=%d" % s]) for m in range(1, 21) for s in scripts]
+    jobs.append(("bb_witness", ["MODE=5", "SCRIPT=0", "WITNESS"]))
+    mods = vlib.parallel(jobs, lambda j: vlib.irx_link(wd, j[0], lls, hs, j[1]))
+    res = vlib.irx_run(mods, K=100000, timeout=3000, extra=["--max-insts", "2000000000"])
+    return wd, jobs, res
 
 
 def build_and_run(cid, tier, two_runs):
